@@ -111,6 +111,7 @@ def pinned_env(extra=None, hashseed="0"):
         "PYTHONDONTWRITEBYTECODE": "1",
         "OPENBLAS_NUM_THREADS": "1",
         "OMP_NUM_THREADS": "1",
+        "ARROW_DEFAULT_MEMORY_POOL": "system",
         "MKL_NUM_THREADS": "1",
         "LC_ALL": "C.UTF-8",
         "LANG": "C.UTF-8",
